@@ -65,7 +65,7 @@ Stripped(v) == v[1].s \notin White /\ v[Len(v)].s \notin White
 TValues == {[i \in 1..(Len(q) + 2) |-> IF i = 1 THEN Lit("~") ELSE IF i = 2 THEN Lit("/") ELSE Lit(q[i - 2])]
               : q \in SeqsUpTo(LitAtoms, TailLen) \ {<<>>}}
 
-CasesA == {[fam |-> "A", defs |-> <<[name |-> "V", val |-> v]>>] : v \in {w \in AValues \cup TValues : TildeOK(w) /\ Stripped(w)}}
+CasesA == {[fam |-> "A", filter |-> "none", defs |-> <<[name |-> "V", val |-> v]>>] : v \in {w \in AValues \cup TValues : TildeOK(w) /\ Stripped(w)}}
 
 ----------------------------------------------------------------------------
 (* Family B: three variables whose configuration order is every permutation *)
@@ -91,12 +91,18 @@ Val3(n1, n2) ==
     <<Lit("x")>> }
 
 CasesBx ==
-  UNION { UNION { UNION { { [fam |-> "B",
+  UNION { UNION { UNION { { [fam |-> "B", filter |-> "none",
                               defs |-> << [name |-> p[1], val |-> v1], [name |-> p[2], val |-> v2],
                                           [name |-> p[3], val |-> v3] >>] : v3 \in Val3(p[1], p[2]) }
                           : v2 \in Val2(p[1]) }
                   : v1 \in Val1 }
           : p \in Perms }
+
+\* Family F: the family-B definitions (plus one more variable, UNUSED, defined second) are inherited from a parent
+\* family and selected by the task's [environment filter]: "incl" lists the three names in the reverse of their
+\* configuration order, "excl" excludes UNUSED.  A filter selects variables; it is not a re-ordering request, so the
+\* job environment is that of the same definitions without a filter (and UNUSED is not defined).
+CasesF == {[fam |-> "F", filter |-> f, defs |-> b.defs] : b \in CasesBx, f \in {"incl", "excl"}}
 
 \* a plain $NAME must not be followed directly by an identifier character
 RefsDelimited(v) ==
@@ -137,7 +143,7 @@ Expected(c) == Run(c.defs, PreEnv)
 
 VARIABLES c, exp
 vars == <<c, exp>>
-Init == /\ c \in {k \in CasesA \cup CasesBx : Legal(k)}
+Init == /\ c \in {k \in CasesA \cup CasesBx \cup CasesF : Legal(k)}
         /\ exp = Expected(c)
 Next == UNCHANGED vars
 Spec == Init /\ [][Next]_vars
